@@ -516,6 +516,19 @@ zgsisx(superlu_options_t *options, SuperMatrix *A, int *perm_c, int *perm_r,
     panel_size = sp_ienv(1);
     relax      = sp_ienv(2);
 
+    if ( nofact && lwork == -1 ) {
+	/* Size query: report the estimate (same value zgsitrf() would
+	   return), no other side effects. */
+	int *iwork_query;
+	doublecomplex *dwork_query;
+	*info = zLUMemInit(options->Fact, work, lwork, A->nrow, A->ncol,
+			   ((NCformat *) A->Store)->nnz, panel_size,
+			   (double) options->ILU_FillFactor, L, U, Glu,
+			   &iwork_query, &dwork_query);
+	mem_usage->total_needed = *info - A->ncol;
+	return;
+    }
+
     utime = stat->utime;
 
     /* Convert A to SLU_NC format when necessary. */
